@@ -710,6 +710,10 @@ def oa2r(o, a=None):
     """
     o = base.getvector(o, 3, out='array')
     a = base.getvector(a, 3, out='array')
+    # normalise first, otherwise the cross products of short, nearly parallel
+    # vectors fall below the zero threshold of unitvec
+    o = base.unitvec(o)
+    a = base.unitvec(a)
     n = np.cross(o, a)
     o = np.cross(a, n)
     R = np.stack((base.unitvec(n), base.unitvec(o), base.unitvec(a)), axis=1)
